@@ -147,6 +147,14 @@ def gen_cases(tier):
     for _ in range(200 if tier == "quick" else 5000):
         mx = rng.choice([1, 3, 10, 100, 500])
         od.append({"mxsteps": mx, "nsteps": rng.randint(1, 2 * mx + 2), "throw_at": rng.choice([-1, -1, -1, rng.randint(0, 2 * mx)])})
+    # stalled steps: accepted steps that do not advance the time the observer sees still count against the budget
+    for mx in (2, 5, 50):
+        for n, st in ((mx + 3, mx), (mx + 1, 1), (2 * mx + 2, mx + 1), (mx, max(1, mx - 2)), (max(2, mx - 1), 1)):
+            od.append({"mxsteps": mx, "nsteps": n, "throw_at": -1, "stall": min(st, n - 1)})
+    for _ in range(60 if tier == "quick" else 2000):
+        mx = rng.choice([3, 10, 100])
+        n = rng.randint(2, 2 * mx + 2)
+        od.append({"mxsteps": mx, "nsteps": n, "throw_at": -1, "stall": rng.randint(1, n - 1)})
     for o in od:
         o["dt"] = rng.choice(DTS)
     # cusparse method (CPU emulation of the CUDA surface): one CVode call per stream, no recovery ladder - every failing outcome
@@ -272,7 +280,7 @@ def run_case(case, ctx):
             cmds.append(f"script {len(seq)} " + " ".join(f"{f} {lab.fmt(fr)}" for f, fr in seq) + " " + " ".join(str(x) for x in sc["reinit"]))
             cmds.append(f"solve {lab.fmt(sc['dt'])} 0")
         else:
-            cmds.append(f"steps {sc['nsteps']} {sc['throw_at']}")
+            cmds.append(f"steps {sc['nsteps']} {sc['throw_at']} {sc.get('stall', 0)}")
             cmds.append(f"solve {lab.fmt(sc['dt'])} {sc['mxsteps']}")
     rr = lab.run_driver(b["exe"], cmds, work / "b", timeout=800)
     if rr.sanitizer_reports:
@@ -338,6 +346,8 @@ def run_case(case, ctx):
                 viol.append(violation("odeint_budget_exceeded_but_success", f"{n} steps with mxsteps={mx} returned success", script=sc))
             if n > mx:
                 obs["odeint_over_budget"] += 1
+            if sc.get("stall"):
+                obs["odeint_stalled_step_scripts"] += 1
             if threw:
                 obs["odeint_integrator_exception"] += 1
             if ev["ret"] == 0:
